@@ -157,8 +157,12 @@ uint64_t rtosc_float2secfracs(float secfracsf)
        <=> secfracs = base_without_comma * 2^(32-exp-4*hexdigits_after_comma)
     */
     int lshift = 32-exp-(hexdigits_after_comma<<2);
-    assert(lshift > 0);
-    secfracs <<= lshift;
+    // a fraction with few significant bits far behind the comma, e.g.
+    // 0x1.8p-31 (3 secfracs), has more hex digits than fit above 2^-32
+    if(lshift >= 0)
+        secfracs <<= lshift;
+    else
+        secfracs >>= -lshift;
     assert((secfracs & 0xFFFFFFFF) == secfracs);
 
     return secfracs;
